@@ -395,7 +395,7 @@ func localAddr(v ssa.Value) bool {
 // ---------- abstract output traces (encoder equivalence, C03) ----------
 // A trace is an uninterpreted value built by trApp(trace, chunk); chunks are chU(width, value) for fixed-width integers,
 // chBytes(ref, off, len) for a byte slice or string (identified by its location, not its contents: the encoders do not
-// modify the data they write), and chEnc(tag, payload, epoch) for "the encoding of that box" (whatever bytes its encoder
+// modify the data they write), and chEnc(tag, payload) for "the encoding of that box" (whatever bytes its encoder
 // produces). No injectivity is assumed of any of them; equal traces from equal start traces are read as equal byte output.
 
 func (e *Enc) uf(name string, args string, res Sort) {
@@ -422,7 +422,9 @@ func (e *Enc) chBytes(p Val) string {
 	return app("TR!bytes", p.sRef(), p.sOff(), p.sLen())
 }
 
+// chEnc carries no heap epoch: it stands for the encoding of that object at the moment the traversal reaches it; the two
+// encoders of a pair reach their children in the same order from the same start state (argued, see DESIGN.md).
 func (e *Enc) chEnc(x Val, st *State) string {
-	e.uf("TR!enc", bv64s+" "+bv64s+" Int", bv64)
-	return app("TR!enc", x.L[0], x.L[1], e.epochOf(st))
+	e.uf("TR!enc", bv64s+" "+bv64s, bv64)
+	return app("TR!enc", x.L[0], x.L[1])
 }
